@@ -2,8 +2,9 @@
 use super::*;
 use crate::de::read::{ReaderRead, SliceRead};
 use crate::schema::verif as nodes;
-use crate::verif::{io::*, spec};
+use crate::verif::{io::*, spec, spec::Enc, targets::*};
 
+/// Real slice deserializer on a constant/stack node. Returns (result, bytes consumed).
 pub(crate) fn de_slice<'de, T: serde::Deserialize<'de>>(
 	node: &'static SchemaNode<'static>,
 	data: &'de [u8],
@@ -13,38 +14,970 @@ pub(crate) fn de_slice<'de, T: serde::Deserialize<'de>>(
 	let left = std::io::BufRead::fill_buf(&mut st.reader).map(|b| b.len()).unwrap_or(0);
 	(r, data.len() - left)
 }
+pub(crate) fn de_slice_cfg<'de, T: serde::Deserialize<'de>>(
+	node: &'static SchemaNode<'static>,
+	data: &'de [u8],
+	max_seq_size: usize,
+	allowed_depth: usize,
+) -> (Result<T, DeError>, usize) {
+	let mut cfg = DeserializerConfig::from_schema_node(nodes::nref(node));
+	cfg.max_seq_size = max_seq_size;
+	cfg.allowed_depth = allowed_depth;
+	let mut st = DeserializerState::with_config(SliceRead::new(data), cfg);
+	let r = T::deserialize(st.deserializer());
+	let left = std::io::BufRead::fill_buf(&mut st.reader).map(|b| b.len()).unwrap_or(0);
+	(r, data.len() - left)
+}
+/// Real reader deserializer over a chunked BufRead. Returns (result, bytes consumed from the stream).
+pub(crate) fn de_reader_cfg<T: serde::de::DeserializeOwned>(
+	node: &'static SchemaNode<'static>,
+	data: &[u8],
+	chunk: usize,
+	max_seq_size: usize,
+	allowed_depth: usize,
+	max_alloc_size: usize,
+) -> (Result<T, DeError>, usize) {
+	let mut cfg = DeserializerConfig::from_schema_node(nodes::nref(node));
+	cfg.max_seq_size = max_seq_size;
+	cfg.allowed_depth = allowed_depth;
+	let mut rr = ReaderRead::new(Chunked::new(data, chunk));
+	rr.max_alloc_size = max_alloc_size;
+	let mut st = DeserializerState::with_config(rr, cfg);
+	let r = T::deserialize(st.deserializer());
+	let used = crate::de::read::verif::consumed(&st.reader);
+	std::mem::forget(st);
+	(r, used)
+}
 
-// @harness props=C03 tier=quick timeout=600
-// @bound all i64 values, minimal-length varint (1..=10 bytes); unwind 12 >= 10 varint bytes + 1
+fn expect_ok<T>(r: &Result<T, DeError>, used: usize, want_used: usize) -> bool {
+	r.is_ok() && used == want_used
+}
+
+// =============================================================================================
+// C03 / C01 (decode half) / C04 (slice path totality): the REAL decoder against the reference
+// decoder (spec::Dec) on EVERY byte string within the length bound:
+//   real Ok(v)              => reference decodes the same v and the same length (nothing fabricated)
+//   reference Some(v), canonical => real Ok(v)              (every spec-valid encoding decodes)
+//   reference None          => real Err                     (truncation, negative length, bad index...)
+// plus Kani's built-in checks on the real code (no panic / overflow / out-of-bounds, loops bounded).
+
+// @harness props=C03,C01,C04 tier=quick timeout=900
+// @bound long: every byte string of length 0..=11; unwind 13
 #[kani::proof]
-#[kani::unwind(12)]
+#[kani::unwind(13)]
 #[kani::stub(alloc::fmt::format, crate::verif::stub_format)]
-fn c03_dec_long() {
-	// every i64, minimal encoding
-	let v: i64 = kani::any();
-	let mut buf = [0u8; 10];
-	let n = spec::put_long(v, &mut buf, 0);
-	let (r, used) = de_slice::<i64>(&nodes::LONG, &buf[..n]);
-	kani::cover!(v == i64::MIN);
-	kani::cover!(n == 10);
-	match &r {
-		Ok(back) => assert!(*back == v && used == n, "c03_dec_long: wrong value or length"),
-		Err(_) => assert!(false, "c03_dec_long: valid encoding rejected"),
+fn c03_diff_long() {
+	let data: [u8; 11] = kani::any();
+	let len: usize = kani::any();
+	kani::assume(len <= 11);
+	let s = &data[..len];
+	let mut d = spec::Dec::new(s);
+	let want = d.long();
+	let (r, used) = de_slice::<i64>(&nodes::LONG, s);
+	kani::cover!(want == Some(i64::MIN));
+	kani::cover!(want.is_none() && len == 11);
+	kani::cover!(d.noncanon && r.is_ok());
+	match (&r, want) {
+		(Ok(v), Some(w)) => assert!(*v == w && used == d.pos, "c03_diff_long: value/length differs from the reference decoder"),
+		(Ok(_), None) => assert!(false, "c03_diff_long: invalid encoding produced a value"),
+		(Err(_), Some(_)) => assert!(d.noncanon, "c03_diff_long: valid encoding rejected"),
+		(Err(_), None) => {}
 	}
 	std::mem::forget(r);
 }
 
 // Reachability twin: must come back VIOLATED (the runner treats SUCCESS here as a broken check)
-// @harness props=C03 tier=quick timeout=600 expect=fail
-// @bound same as c03_dec_long
+// @harness props=C03,C01,C04,C12 tier=quick timeout=600 expect=fail
+// @bound same as c03_diff_long
+#[kani::proof]
+#[kani::unwind(13)]
+#[kani::stub(alloc::fmt::format, crate::verif::stub_format)]
+fn twin_dec_long() {
+	let data: [u8; 11] = kani::any();
+	let len: usize = kani::any();
+	kani::assume(len <= 11);
+	let (r, used) = de_slice::<i64>(&nodes::LONG, &data[..len]);
+	assert!(!(r.is_ok() && used == 10), "twin: reached end of harness with a 10-byte varint");
+	std::mem::forget(r);
+}
+
+// @harness props=C03,C01,C04 tier=quick timeout=900
+// @bound int: every byte string of length 0..=6 (values needing more than 32 bits: no assertion on the value)
+#[kani::proof]
+#[kani::unwind(13)]
+#[kani::stub(alloc::fmt::format, crate::verif::stub_format)]
+fn c03_diff_int() {
+	let data: [u8; 6] = kani::any();
+	let len: usize = kani::any();
+	kani::assume(len <= 6);
+	let s = &data[..len];
+	let mut d = spec::Dec::new(s);
+	let want = d.int();
+	let (r, used) = de_slice::<i32>(&nodes::INT, s);
+	kani::cover!(want == Some(i32::MIN) && !d.noncanon);
+	match (&r, want) {
+		(Ok(v), Some(w)) => assert!(d.noncanon || (*v == w && used == d.pos), "c03_diff_int: value/length differs from the reference decoder"),
+		(Ok(_), None) => assert!(false, "c03_diff_int: invalid encoding produced a value"),
+		(Err(_), Some(_)) => assert!(d.noncanon, "c03_diff_int: valid encoding rejected"),
+		(Err(_), None) => {}
+	}
+	std::mem::forget(r);
+}
+
+// @harness props=C03,C01 tier=quick timeout=600
+// @bound all i32 under date / all i64 under timestamp-micros (logical types share the int/long arms), minimal varint
 #[kani::proof]
 #[kani::unwind(12)]
 #[kani::stub(alloc::fmt::format, crate::verif::stub_format)]
-fn twin_dec_long() {
-	let v: i64 = kani::any();
-	let mut buf = [0u8; 10];
-	let n = spec::put_long(v, &mut buf, 0);
-	let (r, used) = de_slice::<i64>(&nodes::LONG, &buf[..n]);
-	assert!(!(r.is_ok() && used == 10), "twin: reached end of harness with a 10-byte varint");
+fn c03_dec_logical_int_long() {
+	let v: i32 = kani::any();
+	let mut e = Enc::<10>::new();
+	e.long(v as i64);
+	let (r, used) = de_slice::<i32>(&nodes::DATE, e.bytes());
+	match &r {
+		Ok(back) => assert!(*back == v && used == e.len, "c03_dec_date: wrong value or length"),
+		Err(_) => assert!(false, "c03_dec_date: valid encoding rejected"),
+	}
 	std::mem::forget(r);
+	let w: i64 = kani::any();
+	let mut e = Enc::<10>::new();
+	e.long(w);
+	let (r, used) = de_slice::<i64>(&nodes::TS_MICROS, e.bytes());
+	match &r {
+		Ok(back) => assert!(*back == w && used == e.len, "c03_dec_ts_micros: wrong value or length"),
+		Err(_) => assert!(false, "c03_dec_ts_micros: valid encoding rejected"),
+	}
+	std::mem::forget(r);
+}
+
+// @harness props=C03,C01 tier=quick timeout=600
+// @bound boolean: every byte 0..=255 (0/1 -> value, others -> Err); float all 2^32 bit patterns; double all 2^64 bit patterns (compared by bits); null
+#[kani::proof]
+#[kani::unwind(10)]
+#[kani::stub(alloc::fmt::format, crate::verif::stub_format)]
+fn c03_dec_fixed_width() {
+	let b: u8 = kani::any();
+	let (r, used) = de_slice::<bool>(&nodes::BOOLEAN, &[b]);
+	kani::cover!(b == 2);
+	match &r {
+		Ok(x) => assert!(b <= 1 && *x == (b == 1) && used == 1, "c03_dec_bool: byte other than 0/1 accepted or wrong value"),
+		Err(_) => assert!(b >= 2, "c03_dec_bool: valid boolean rejected"),
+	}
+	std::mem::forget(r);
+	let fb: u32 = kani::any();
+	let mut e = Enc::<8>::new();
+	e.f32_bits(fb);
+	let (r, used) = de_slice::<f32>(&nodes::FLOAT, e.bytes());
+	kani::cover!(fb == 0x7fc0_0001);
+	match &r {
+		Ok(x) => assert!(x.to_bits() == fb && used == 4, "c03_dec_float: bits changed"),
+		Err(_) => assert!(false, "c03_dec_float: valid encoding rejected"),
+	}
+	std::mem::forget(r);
+	let db: u64 = kani::any();
+	let mut e = Enc::<8>::new();
+	e.f64_bits(db);
+	let (r, used) = de_slice::<f64>(&nodes::DOUBLE, e.bytes());
+	match &r {
+		Ok(x) => assert!(x.to_bits() == db && used == 8, "c03_dec_double: bits changed"),
+		Err(_) => assert!(false, "c03_dec_double: valid encoding rejected"),
+	}
+	std::mem::forget(r);
+	let (r, used) = de_slice::<()>(&nodes::NULL, &[]);
+	assert!(r.is_ok() && used == 0, "c03_dec_null: null must decode from zero bytes");
+	std::mem::forget(r);
+}
+
+// @harness props=C03,C01,C04 tier=quick timeout=900
+// @bound bytes: every byte string of length 0..=7; Ok result must borrow from the input at the right offset
+#[kani::proof]
+#[kani::unwind(13)]
+#[kani::stub(alloc::fmt::format, crate::verif::stub_format)]
+fn c03_diff_bytes() {
+	let data: [u8; 7] = kani::any();
+	let len: usize = kani::any();
+	kani::assume(len <= 7);
+	let s = &data[..len];
+	let mut d = spec::Dec::new(s);
+	let want = d.len_prefixed();
+	let (r, used) = de_slice::<BBytes>(&nodes::BYTES, s);
+	kani::cover!(want.map_or(false, |w| w.len() == 6));
+	kani::cover!(want.is_none() && len == 7 && data[0] < 0x80);
+	match (&r, want) {
+		(Ok(v), Some(w)) => {
+			assert!(used == d.pos && v.0.len() == w.len(), "c03_diff_bytes: length differs from the reference decoder");
+			assert!(v.0.as_ptr() == w.as_ptr(), "c03_diff_bytes: result is not the right sub-slice of the input");
+		}
+		(Ok(_), None) => assert!(false, "c03_diff_bytes: invalid encoding produced a value"),
+		(Err(_), Some(_)) => assert!(d.noncanon, "c03_diff_bytes: valid encoding rejected"),
+		(Err(_), None) => {}
+	}
+	std::mem::forget(r);
+}
+
+// @harness props=C03,C01 tier=quick timeout=900
+// @bound string and uuid: 0..=3 bytes of well-formed UTF-8 (1-, 2-, 3-byte sequences) -> borrowed &str into the input; real core::str::from_utf8
+#[kani::proof]
+#[kani::unwind(8)]
+#[kani::stub(alloc::fmt::format, crate::verif::stub_format)]
+fn c03_dec_string_borrowed() {
+	let content: [u8; 3] = kani::any();
+	let n: usize = kani::any();
+	kani::assume(n <= 3);
+	kani::assume(spec::utf8_valid(&content[..n]));
+	let mut data = [0u8; 4];
+	data[0] = (n as u8) << 1;
+	data[1] = content[0];
+	data[2] = content[1];
+	data[3] = content[2];
+	let s = &data[..1 + n];
+	let (r, used) = de_slice::<BStr>(&nodes::STRING, s);
+	kani::cover!(n == 3 && content[0] >= 0xE0);
+	kani::cover!(n == 2 && content[0] >= 0xC2);
+	match &r {
+		Ok(b) => {
+			assert!(used == 1 + n && b.0.len() == n, "c03_dec_string: wrong length");
+			assert!(b.0.as_ptr() == s[1..].as_ptr(), "c03_dec_string: result does not point into the input slice");
+		}
+		Err(_) => assert!(false, "c03_dec_string: valid UTF-8 string rejected"),
+	}
+	std::mem::forget(r);
+}
+
+// @harness props=C03 tier=quick timeout=900
+// @bound string: 1..=3 bytes that are NOT well-formed UTF-8 (by the reference validator) must be rejected; real core::str::from_utf8
+#[kani::proof]
+#[kani::unwind(8)]
+#[kani::stub(alloc::fmt::format, crate::verif::stub_format)]
+fn c03_bad_utf8() {
+	let content: [u8; 3] = kani::any();
+	let n: usize = kani::any();
+	kani::assume(n >= 1 && n <= 3);
+	kani::assume(!spec::utf8_valid(&content[..n]));
+	let mut data = [0u8; 4];
+	data[0] = (n as u8) << 1;
+	data[1] = content[0];
+	data[2] = content[1];
+	data[3] = content[2];
+	let (r, _used) = de_slice::<BStr>(&nodes::STRING, &data[..1 + n]);
+	kani::cover!(n == 3 && content[0] == 0xED);
+	assert!(r.is_err(), "c03_bad_utf8: ill-formed UTF-8 accepted as string");
+	std::mem::forget(r);
+}
+
+// @harness props=C03,C01,C04 tier=quick timeout=900
+// @bound string: every byte string of length 0..=6 (UTF-8 verdict taken from the reference validator: core::str::from_utf8 stubbed by it)
+#[kani::proof]
+#[kani::unwind(13)]
+#[kani::stub(alloc::fmt::format, crate::verif::stub_format)]
+#[kani::stub(std::str::from_utf8, crate::verif::stub_from_utf8)]
+fn c03_diff_string() {
+	let data: [u8; 6] = kani::any();
+	let len: usize = kani::any();
+	kani::assume(len <= 6);
+	let s = &data[..len];
+	let mut d = spec::Dec::new(s);
+	let want = match d.len_prefixed() {
+		Some(w) if spec::utf8_valid(w) => Some(w),
+		_ => None,
+	};
+	let (r, used) = de_slice::<BStr>(&nodes::STRING, s);
+	kani::cover!(want.map_or(false, |w| w.len() == 5));
+	match (&r, want) {
+		(Ok(v), Some(w)) => assert!(used == d.pos && v.0.len() == w.len() && v.0.as_ptr() == w.as_ptr(), "c03_diff_string: differs from the reference decoder"),
+		(Ok(_), None) => assert!(false, "c03_diff_string: invalid encoding produced a value"),
+		(Err(_), Some(_)) => assert!(d.noncanon, "c03_diff_string: valid encoding rejected"),
+		(Err(_), None) => {}
+	}
+	std::mem::forget(r);
+}
+
+// @harness props=C03,C01 tier=quick timeout=600
+// @bound fixed(3): all contents and every shorter input (-> Err)
+#[kani::proof]
+#[kani::unwind(8)]
+#[kani::stub(alloc::fmt::format, crate::verif::stub_format)]
+fn c03_dec_fixed() {
+	crate::verif::stack_node!(f3 = nodes::fixed_node(3));
+	let content: [u8; 3] = kani::any();
+	let len: usize = kani::any();
+	kani::assume(len <= 3);
+	let (r, used) = de_slice::<BBytes>(f3, &content[..len]);
+	kani::cover!(len == 2);
+	match &r {
+		Ok(b) => assert!(len == 3 && used == 3 && b.0.len() == 3 && b.0[0] == content[0] && b.0[2] == content[2], "c03_dec_fixed: wrong content"),
+		Err(_) => assert!(len < 3, "c03_dec_fixed: valid encoding rejected"),
+	}
+	std::mem::forget(r);
+}
+
+// @harness props=C03,C01 tier=quick timeout=600
+// @bound duration: all 3 x u32 as (u32,u32,u32), and every input shorter than 12 bytes (-> Err)
+#[kani::proof]
+#[kani::unwind(14)]
+#[kani::stub(alloc::fmt::format, crate::verif::stub_format)]
+fn c03_dec_duration_tuple() {
+	let (m, d, ms): (u32, u32, u32) = (kani::any(), kani::any(), kani::any());
+	let mut e = Enc::<12>::new();
+	e.u32_le(m);
+	e.u32_le(d);
+	e.u32_le(ms);
+	let len: usize = kani::any();
+	kani::assume(len <= 12);
+	let (r, used) = de_slice::<DurTuple>(&nodes::DURATION, &e.buf[..len]);
+	match &r {
+		Ok(t) => assert!(len == 12 && used == 12 && t.0 == m && t.1 == d && t.2 == ms, "c03_dec_duration: tuple differs"),
+		Err(_) => assert!(len < 12, "c03_dec_duration: tuple rejected"),
+	}
+	std::mem::forget(r);
+}
+
+// @harness props=C03,C01 tier=quick timeout=600
+// @bound duration: all 3 x u32 as struct {months, days, milliseconds} and as 12 raw borrowed bytes
+#[kani::proof]
+#[kani::unwind(14)]
+#[kani::stub(alloc::fmt::format, crate::verif::stub_format)]
+fn c03_dec_duration_struct_bytes() {
+	let (m, d, ms): (u32, u32, u32) = (kani::any(), kani::any(), kani::any());
+	let mut e = Enc::<12>::new();
+	e.u32_le(m);
+	e.u32_le(d);
+	e.u32_le(ms);
+	let (r, used) = de_slice::<Dur>(&nodes::DURATION, e.bytes());
+	match &r {
+		Ok(t) => assert!(used == 12 && t.months == m && t.days == d && t.milliseconds == ms, "c03_dec_duration: struct differs"),
+		Err(_) => assert!(false, "c03_dec_duration: struct rejected"),
+	}
+	std::mem::forget(r);
+	let (r, used) = de_slice::<BBytes>(&nodes::DURATION, e.bytes());
+	match &r {
+		Ok(b) => assert!(used == 12 && b.0.len() == 12 && b.0[0] == m as u8 && b.0[11] == (ms >> 24) as u8, "c03_dec_duration: raw bytes differ"),
+		Err(_) => assert!(false, "c03_dec_duration: raw bytes rejected"),
+	}
+	std::mem::forget(r);
+}
+
+// @harness props=C03,C01,C04 tier=quick timeout=900
+// @bound decimal(bytes, scale 0): every byte string of length 0..=6 against the reference (payload <= 5 bytes), i128 hint
+#[kani::proof]
+#[kani::unwind(19)]
+#[kani::stub(alloc::fmt::format, crate::verif::stub_format)]
+fn c03_diff_decimal_bytes() {
+	crate::verif::stack_node!(dn = nodes::dec_bytes(0));
+	let data: [u8; 6] = kani::any();
+	let len: usize = kani::any();
+	kani::assume(len <= 6);
+	let s = &data[..len];
+	let mut d = spec::Dec::new(s);
+	let want = d.len_prefixed().map(spec::twos_complement);
+	let (r, used) = de_slice::<I128Hint>(dn, s);
+	kani::cover!(want.map_or(false, |w| w < -1000));
+	match (&r, want) {
+		(Ok(v), Some(w)) => assert!(v.0 == w && used == d.pos, "c03_diff_decimal: differs from the reference decoder"),
+		(Ok(_), None) => assert!(false, "c03_diff_decimal: invalid encoding produced a value"),
+		(Err(_), Some(_)) => assert!(d.noncanon, "c03_diff_decimal: valid decimal rejected"),
+		(Err(_), None) => {}
+	}
+	std::mem::forget(r);
+}
+
+// @harness props=C03,C01 tier=thorough timeout=1800
+// @bound decimal(bytes, scale 0): payload length 0..=16, all contents, i128 hint == sign-extended two's complement; length 17 -> Err
+#[kani::proof]
+#[kani::unwind(20)]
+#[kani::stub(alloc::fmt::format, crate::verif::stub_format)]
+fn c03_dec_decimal_bytes_16() {
+	crate::verif::stack_node!(dn = nodes::dec_bytes(0));
+	let content: [u8; 18] = kani::any();
+	let n: usize = kani::any();
+	kani::assume(n <= 17);
+	let mut data = [0u8; 18];
+	data[0] = (n as u8) << 1;
+	let mut i = 0;
+	while i < 17 {
+		data[1 + i] = content[i];
+		i += 1;
+	}
+	let (r, used) = de_slice::<I128Hint>(dn, &data[..1 + n]);
+	kani::cover!(n == 16 && content[0] >= 0x80);
+	match &r {
+		Ok(x) => assert!(n <= 16 && used == 1 + n && x.0 == spec::twos_complement(&content[..n]), "c03_dec_decimal_bytes: wrong number"),
+		Err(_) => assert!(n == 17, "c03_dec_decimal_bytes: valid decimal rejected"),
+	}
+	std::mem::forget(r);
+}
+
+fn dec_fixed_case(n: usize, node: &'static SchemaNode<'static>) {
+	let content: [u8; 17] = kani::any();
+	let (r, used) = de_slice::<I128Hint>(node, &content[..n]);
+	match &r {
+		Ok(x) => assert!(n <= 16 && used == n && x.0 == spec::twos_complement(&content[..n]), "c03_dec_decimal_fixed: wrong number"),
+		Err(_) => assert!(n == 17, "c03_dec_decimal_fixed: valid decimal rejected"),
+	}
+	std::mem::forget(r);
+}
+
+// @harness props=C03,C01 tier=quick timeout=900
+// @bound decimal(fixed n, scale 0) for n in {0,1,2}: all contents, i128 hint
+#[kani::proof]
+#[kani::unwind(20)]
+#[kani::stub(alloc::fmt::format, crate::verif::stub_format)]
+fn c03_dec_decimal_fixed_small() {
+	crate::verif::stack_node!(d0 = nodes::dec_fixed(0, 0));
+	crate::verif::stack_node!(d1 = nodes::dec_fixed(1, 0));
+	crate::verif::stack_node!(d2 = nodes::dec_fixed(2, 0));
+	dec_fixed_case(0, d0);
+	dec_fixed_case(1, d1);
+	dec_fixed_case(2, d2);
+}
+
+// @harness props=C03,C01 tier=quick timeout=900
+// @bound decimal(fixed 16): all contents; decimal(fixed 17) -> Err (documented 16-byte limit), never a value
+#[kani::proof]
+#[kani::unwind(20)]
+#[kani::stub(alloc::fmt::format, crate::verif::stub_format)]
+fn c03_dec_decimal_fixed_16_17() {
+	crate::verif::stack_node!(d16 = nodes::dec_fixed(16, 0));
+	crate::verif::stack_node!(d17 = nodes::dec_fixed(17, 0));
+	dec_fixed_case(16, d16);
+	dec_fixed_case(17, d17);
+}
+
+// @harness props=C03,C01 tier=thorough timeout=2400
+// @bound big-decimal framing: inner payload 0..=3 bytes, scale 0, outer length exact -> value; outer length off by one -> Err
+#[kani::proof]
+#[kani::unwind(12)]
+#[kani::stub(alloc::fmt::format, crate::verif::stub_format)]
+#[kani::stub(rust_decimal::Decimal::try_from_i128_with_scale, crate::verif::stub_no_rust_decimal)]
+fn c03_dec_bigdecimal() {
+	let content: [u8; 3] = kani::any();
+	let n: usize = kani::any();
+	kani::assume(n <= 3);
+	let delta: i8 = kani::any();
+	kani::assume(delta >= -1 && delta <= 1);
+	// inner = varint(n) payload varint(scale=0); all varints here are single bytes
+	let inner_len = (1 + n + 1) as i64 + delta as i64;
+	let mut data = [0u8; 8];
+	data[0] = (inner_len as u8) << 1;
+	data[1] = (n as u8) << 1;
+	data[2] = content[0];
+	data[3] = content[1];
+	data[4] = content[2];
+	data[2 + n] = 0; // scale
+	let total = 2 + n + 1;
+	let (r, used) = de_slice::<I128Hint>(&nodes::BIG_DECIMAL, &data[..total]);
+	kani::cover!(delta == 0 && n == 3);
+	kani::cover!(delta == 1);
+	match &r {
+		Ok(x) => {
+			assert!(delta == 0, "c03_dec_bigdecimal: inconsistent outer length accepted");
+			assert!(used == total && x.0 == spec::twos_complement(&content[..n]), "c03_dec_bigdecimal: wrong number");
+		}
+		Err(_) => assert!(delta != 0, "c03_dec_bigdecimal: valid big-decimal rejected"),
+	}
+	std::mem::forget(r);
+}
+
+// @harness props=C03,C01 tier=quick timeout=900
+// @bound enum {a,b,cc}: every i64 index: 0..3 decodes to its symbol; every other index -> Err
+#[kani::proof]
+#[kani::unwind(12)]
+#[kani::stub(alloc::fmt::format, crate::verif::stub_format)]
+fn c03_dec_enum() {
+	crate::verif::enum_node!(en = "ns.e3", Some(2); ["a", "b", "cc"]);
+	let idx: i64 = kani::any();
+	let mut e = Enc::<10>::new();
+	e.long(idx);
+	let (r, used) = de_slice::<OStr<2>>(en, e.bytes());
+	kani::cover!(idx == 2);
+	kani::cover!(idx == -1);
+	match &r {
+		Ok(s) => {
+			assert!(idx >= 0 && idx < 3 && used == e.len, "c03_dec_enum: index outside the schema accepted");
+			let want: &[u8] = match idx {
+				0 => b"a",
+				1 => b"b",
+				_ => b"cc",
+			};
+			assert!(s.0.len == want.len() && s.0.buf[0] == want[0], "c03_dec_enum: wrong symbol");
+		}
+		Err(_) => assert!(idx < 0 || idx >= 3, "c03_dec_enum: valid enum index rejected"),
+	}
+	std::mem::forget(r);
+}
+
+/// reference decode of array<long> into at most 3 items; None = invalid; `over` = more than 3 items.
+/// Single loop over tokens (every token is a varint of >= 1 byte, so at most len+1 iterations).
+fn ref_array_long(d: &mut spec::Dec, out: &mut [i64; 3], n: &mut usize, over: &mut bool) -> Option<()> {
+	let mut left: u64 = 0; // items left in the current block
+	let mut size: Option<u64> = None;
+	let mut start = 0;
+	let mut tokens = 0;
+	loop {
+		if tokens > d.data.len() {
+			return None;
+		}
+		tokens += 1;
+		if left == 0 {
+			if let Some(sz) = size {
+				if sz != (d.pos - start) as u64 {
+					d.noncanon = true;
+				}
+			}
+			size = None;
+			let c = d.block_count(&mut size)?;
+			if c == 0 {
+				return Some(());
+			}
+			left = c;
+			start = d.pos;
+		} else {
+			let v = d.long()?;
+			if *n < 3 {
+				out[*n] = v;
+				*n += 1;
+			} else {
+				*over = true;
+			}
+			left -= 1;
+		}
+	}
+}
+
+// @harness props=C03,C01,C04 tier=quick timeout=1800
+// @bound array<long>: every byte string of length 0..=6 (covers every block split, negative counts with byte sizes, truncations, hostile counts); arrays of more than 3 items are outside
+#[kani::proof]
+#[kani::unwind(10)]
+#[kani::stub(alloc::fmt::format, crate::verif::stub_format)]
+fn c03_diff_array_long() {
+	crate::verif::stack_node!(arr = nodes::array_of(&nodes::LONG));
+	let data: [u8; 6] = kani::any();
+	let len: usize = kani::any();
+	kani::assume(len <= 6);
+	let s = &data[..len];
+	let mut d = spec::Dec::new(s);
+	let mut want = [0i64; 3];
+	let mut n = 0;
+	let mut over = false;
+	let ok = ref_array_long(&mut d, &mut want, &mut n, &mut over);
+	kani::assume(!over);
+	let (r, used) = de_slice::<Seq<i64, 3>>(arr, s);
+	kani::cover!(ok.is_some() && n == 3);
+	kani::cover!(ok.is_some() && n == 2 && data[0] == 1 && data[1] == 2);
+	match (&r, ok) {
+		(Ok(v), Some(())) => {
+			assert!(v.len == n && used == d.pos, "c03_diff_array: count/length differs from the reference decoder");
+			let mut i = 0;
+			while i < n {
+				assert!(v.items[i] == want[i], "c03_diff_array: element differs from the reference decoder");
+				i += 1;
+			}
+		}
+		(Ok(_), None) => assert!(false, "c03_diff_array: invalid encoding produced a value"),
+		(Err(_), Some(())) => assert!(d.noncanon, "c03_diff_array: valid encoding rejected"),
+		(Err(_), None) => {}
+	}
+	std::mem::forget(r);
+}
+
+// Unions. A full decode through a union makes the branch node pointer depend on the input and CBMC then
+// unfolds every schema arm recursively (measured: no verdict even on fully concrete input). The union
+// logic is therefore decided on its own: the branch-selection function of the real code against the
+// reference decoder on every byte string; decoding of the selected branch is the per-kind harnesses,
+// and the glue between the two is the single expression `Self { schema_node: selected, .. }`.
+
+fn union_discriminant_case<const K: usize>(u: &'static SchemaNode<'static>, vars: [&'static SchemaNode<'static>; K]) {
+	let data: [u8; 11] = kani::any();
+	let len: usize = kani::any();
+	kani::assume(len <= 11);
+	let s = &data[..len];
+	let mut d = spec::Dec::new(s);
+	let want = d.long();
+	let mut st = DeserializerState::from_schema_node(SliceRead::new(s), nodes::nref(u));
+	let un = match u {
+		SchemaNode::Union(un) => un,
+		_ => unreachable!(),
+	};
+	let r = read_union_discriminant(&mut st, un);
+	let left = std::io::BufRead::fill_buf(&mut st.reader).map(|b| b.len()).unwrap_or(0);
+	let used = len - left;
+	kani::cover!(r.is_ok() && want == Some(K as i64 - 1));
+	kani::cover!(r.is_err() && want == Some(K as i64));
+	kani::cover!(r.is_err() && want == Some(-1));
+	match (&r, want) {
+		(Ok(p), Some(i)) => {
+			assert!(i >= 0 && (i as usize) < K, "c03_union: branch index outside the union accepted");
+			assert!(std::ptr::eq(*p, vars[i as usize]) && used == d.pos, "c03_union: wrong branch selected");
+		}
+		(Ok(_), None) => assert!(false, "c03_union: invalid index encoding produced a branch"),
+		(Err(_), Some(i)) => assert!(d.noncanon || i < 0 || i as usize >= K, "c03_union: valid branch index rejected"),
+		(Err(_), None) => {}
+	}
+	std::mem::forget(r);
+}
+
+// @harness props=C03,C01,C04 tier=quick timeout=1200
+// @bound union branch selection, 2- and 3-branch unions: every byte string of length 0..=11 (all i64 indexes, truncations): selected node == variants[index] iff 0 <= index < n, else Err
+#[kani::proof]
+#[kani::unwind(13)]
+#[kani::stub(alloc::fmt::format, crate::verif::stub_format)]
+fn c03_union_discriminant() {
+	crate::verif::union_node_de!(u2 = [&nodes::NULL, &nodes::LONG]);
+	union_discriminant_case::<2>(u2, [&nodes::NULL, &nodes::LONG]);
+	crate::verif::union_node_de!(u3 = [&nodes::STRING, &nodes::NULL, &nodes::DOUBLE]);
+	union_discriminant_case::<3>(u3, [&nodes::STRING, &nodes::NULL, &nodes::DOUBLE]);
+}
+
+// =============================================================================================
+// C04: resource limits
+
+// @harness props=C04 tier=quick timeout=1200
+// @bound array<null> (zero-byte items: the count is the only bound): every byte string of length 0..=4, max_seq_size symbolic 0..=3; more items than max_seq_size must be an error and the work done must not follow the number written in the input (unwind 7 would be exceeded otherwise)
+#[kani::proof]
+#[kani::unwind(7)]
+#[kani::stub(alloc::fmt::format, crate::verif::stub_format)]
+fn c04_array_null_max_seq_size() {
+	crate::verif::stack_node!(arr = nodes::array_of(&nodes::NULL));
+	let data: [u8; 4] = kani::any();
+	let len: usize = kani::any();
+	kani::assume(len <= 4);
+	let max: usize = kani::any();
+	kani::assume(max <= 3);
+	let (r, used) = de_slice_cfg::<Seq<(), 4>>(arr, &data[..len], max, 64);
+	kani::cover!(r.is_ok() && max == 3);
+	kani::cover!(r.is_err() && len == 4 && data[0] == 0xfe);
+	if let Ok(s) = &r {
+		assert!(s.len <= max, "c04: sequence longer than max_seq_size was produced");
+		assert!(used <= len, "c04: consumed more than the input");
+	}
+	std::mem::forget(r);
+}
+
+// @harness props=C04 tier=quick timeout=1200
+// @bound array<null> skipped through IgnoredAny (block-size fast path): every byte string 0..=3, max_seq_size 0..=2: terminates within the unwind bound, never reads outside the input
+#[kani::proof]
+#[kani::unwind(6)]
+#[kani::stub(alloc::fmt::format, crate::verif::stub_format)]
+fn c04_array_null_ignored() {
+	crate::verif::stack_node!(arr = nodes::array_of(&nodes::NULL));
+	let data: [u8; 3] = kani::any();
+	let len: usize = kani::any();
+	kani::assume(len <= 3);
+	let max: usize = kani::any();
+	kani::assume(max <= 2);
+	let (r, used) = de_slice_cfg::<IgnoredAny>(arr, &data[..len], max, 64);
+	kani::cover!(r.is_ok() && used == 3);
+	if r.is_ok() {
+		assert!(used <= len, "c04: consumed more than the input");
+	}
+	std::mem::forget(r);
+}
+
+fn depth_case(p: &'static SchemaNode<'static>, depth: usize, allowed: usize) {
+	// depth nested one-element arrays, innermost empty: 02 * depth, then 00 * (depth + 1)
+	let mut data = [0u8; 9];
+	let mut i = 0;
+	while i < depth {
+		data[i] = 2;
+		i += 1;
+	}
+	let total = 2 * depth + 1;
+	let (r, used) = de_slice_cfg::<IgnoredAny>(p, &data[..total], 1000, allowed);
+	// entering the outermost array already costs one level
+	if depth + 1 > allowed {
+		assert!(r.is_err(), "c04: nesting deeper than allowed_depth was accepted");
+	} else {
+		assert!(r.is_ok() && used == total, "c04: nesting within allowed_depth was rejected");
+	}
+	std::mem::forget(r);
+}
+
+// @harness props=C04 tier=quick timeout=1200
+// @bound self-referential array (array whose items are itself): inputs of nesting depth 0..=3 (concrete shapes 02..02 00..00), allowed_depth symbolic 0..=3: deeper than the limit -> Err, within -> Ok; recursion bounded by the limit (unwind 7)
+#[kani::proof]
+#[kani::unwind(7)]
+#[kani::stub(alloc::fmt::format, crate::verif::stub_format)]
+fn c04_depth_limit() {
+	let mut slot = std::mem::ManuallyDrop::new(SchemaNode::Null);
+	let p: &'static SchemaNode<'static> = unsafe { std::mem::transmute(&*slot) };
+	// SAFETY (verification only): make the node point at itself
+	unsafe { std::ptr::write(&mut *slot as *mut SchemaNode<'_> as *mut SchemaNode<'static>, nodes::array_of(p)) };
+	let allowed: usize = kani::any();
+	kani::assume(allowed <= 3);
+	kani::cover!(allowed == 2);
+	depth_case(p, 0, allowed);
+	depth_case(p, 1, allowed);
+	depth_case(p, 2, allowed);
+	depth_case(p, 3, allowed);
+}
+
+// @harness props=C04,C11 tier=quick timeout=1200
+// @bound reader input, bytes node: every byte string 0..=6, every refill size 1..=6, max_alloc_size symbolic 0..=4: a field larger than max_alloc_size that is not already buffered -> Err; the scratch buffer never grows beyond max_alloc_size
+#[kani::proof]
+#[kani::unwind(9)]
+#[kani::stub(alloc::fmt::format, crate::verif::stub_format)]
+fn c04_reader_max_alloc() {
+	let data: [u8; 6] = kani::any();
+	let len: usize = kani::any();
+	kani::assume(len <= 6);
+	let chunk: usize = kani::any();
+	kani::assume(chunk >= 1 && chunk <= 6);
+	let max_alloc: usize = kani::any();
+	kani::assume(max_alloc <= 4);
+	let s = &data[..len];
+	let mut cfg = DeserializerConfig::from_schema_node(nodes::nref(&nodes::BYTES));
+	cfg.max_seq_size = 10;
+	let mut rr = ReaderRead::new(Chunked::new(s, chunk));
+	rr.max_alloc_size = max_alloc;
+	let mut st = DeserializerState::with_config(rr, cfg);
+	let r = <OBytes<6> as serde::Deserialize>::deserialize(st.deserializer());
+	let scratch = crate::de::read::verif::scratch_len(&st.reader);
+	let mut d = spec::Dec::new(s);
+	let want = d.len_prefixed();
+	kani::cover!(r.is_ok() && scratch > 0);
+	kani::cover!(r.is_err() && want.is_some());
+	assert!(scratch <= max_alloc, "c04: scratch buffer grew beyond max_alloc_size");
+	match (&r, want) {
+		(Ok(v), Some(w)) => {
+			assert!(v.len == w.len(), "c04_reader: wrong length");
+			// larger than the cap is only acceptable when it was served from the BufRead buffer itself
+			assert!(w.len() <= max_alloc || w.len() <= chunk, "c04_reader: field above max_alloc_size was allocated");
+		}
+		(Ok(_), None) => assert!(false, "c04_reader: invalid encoding produced a value"),
+		(Err(_), Some(w)) => assert!(d.noncanon || w.len() > max_alloc, "c04_reader: valid field within max_alloc_size rejected"),
+		(Err(_), None) => {}
+	}
+	std::mem::forget(r);
+	std::mem::forget(st);
+}
+
+// =============================================================================================
+// C11 whole-datum: slice input vs reader input under every uniform refill size
+
+fn sv_scalar<'a, T: serde::de::DeserializeOwned + PartialEq>(node: &'static SchemaNode<'static>, s: &'a [u8], chunk: usize) {
+	let (a, a_used) = de_slice::<T>(node, s);
+	let (b, b_used) = de_reader_cfg::<T>(node, s, chunk, 1_000, 64, 1 << 20);
+	match (&a, &b) {
+		(Ok(x), Ok(y)) => assert!(*x == *y && a_used == b_used, "c11_sv: slice and reader differ in value or consumed length"),
+		(Err(_), Err(_)) => {}
+		(Ok(_), Err(_)) => assert!(false, "c11_sv: slice Ok but reader Err"),
+		(Err(_), Ok(_)) => assert!(false, "c11_sv: slice Err but reader Ok"),
+	}
+	std::mem::forget(a);
+	std::mem::forget(b);
+}
+
+// @harness props=C11 tier=quick timeout=1200
+// @bound whole datum, long and int nodes: every byte string 0..=11 x refill size 1..=11
+#[kani::proof]
+#[kani::unwind(13)]
+#[kani::stub(alloc::fmt::format, crate::verif::stub_format)]
+fn c11_sv_long_int() {
+	let data: [u8; 11] = kani::any();
+	let len: usize = kani::any();
+	kani::assume(len <= 11);
+	let chunk: usize = kani::any();
+	kani::assume(chunk >= 1 && chunk <= 11);
+	sv_scalar::<i64>(&nodes::LONG, &data[..len], chunk);
+	sv_scalar::<i32>(&nodes::INT, &data[..len], chunk);
+}
+
+// @harness props=C11 tier=quick timeout=1200
+// @bound whole datum, double / duration(tuple) / boolean: every byte string 0..=13 x refill size 1..=13
+#[kani::proof]
+#[kani::unwind(15)]
+#[kani::stub(alloc::fmt::format, crate::verif::stub_format)]
+fn c11_sv_fixed_width() {
+	let data: [u8; 13] = kani::any();
+	let len: usize = kani::any();
+	kani::assume(len <= 13);
+	let chunk: usize = kani::any();
+	kani::assume(chunk >= 1 && chunk <= 13);
+	let s = &data[..len];
+	let (a, a_used) = de_slice::<f64>(&nodes::DOUBLE, s);
+	let (b, b_used) = de_reader_cfg::<f64>(&nodes::DOUBLE, s, chunk, 1000, 64, 1 << 20);
+	match (&a, &b) {
+		(Ok(x), Ok(y)) => assert!(x.to_bits() == y.to_bits() && a_used == b_used, "c11_sv_double: differ"),
+		(Err(_), Err(_)) => {}
+		_ => assert!(false, "c11_sv_double: one path Ok the other Err"),
+	}
+	std::mem::forget(a);
+	std::mem::forget(b);
+	sv_scalar::<DurTuple>(&nodes::DURATION, s, chunk);
+	sv_scalar::<bool>(&nodes::BOOLEAN, s, chunk);
+}
+
+impl<const N: usize> PartialEq for OBytes<N> {
+	fn eq(&self, o: &Self) -> bool {
+		if self.len != o.len {
+			return false;
+		}
+		let mut i = 0;
+		while i < self.len {
+			if self.buf[i] != o.buf[i] {
+				return false;
+			}
+			i += 1;
+		}
+		true
+	}
+}
+impl<const N: usize> PartialEq for OStr<N> {
+	fn eq(&self, o: &Self) -> bool {
+		self.0 == o.0
+	}
+}
+impl<T: PartialEq, const N: usize> PartialEq for Seq<T, N> {
+	fn eq(&self, o: &Self) -> bool {
+		if self.len != o.len {
+			return false;
+		}
+		let mut i = 0;
+		while i < self.len {
+			if self.items[i] != o.items[i] {
+				return false;
+			}
+			i += 1;
+		}
+		true
+	}
+}
+
+// @harness props=C11 tier=quick timeout=1200
+// @bound whole datum, bytes and string (UTF-8 verdict from the reference validator): every byte string 0..=6 x refill size 1..=6 (in-buffer visit vs scratch copy vs slice borrow)
+#[kani::proof]
+#[kani::unwind(9)]
+#[kani::stub(alloc::fmt::format, crate::verif::stub_format)]
+#[kani::stub(std::str::from_utf8, crate::verif::stub_from_utf8)]
+fn c11_sv_bytes_string() {
+	let data: [u8; 6] = kani::any();
+	let len: usize = kani::any();
+	kani::assume(len <= 6);
+	let chunk: usize = kani::any();
+	kani::assume(chunk >= 1 && chunk <= 6);
+	sv_scalar::<OBytes<6>>(&nodes::BYTES, &data[..len], chunk);
+	sv_scalar::<OStr<6>>(&nodes::STRING, &data[..len], chunk);
+}
+
+// @harness props=C11 tier=quick timeout=1800
+// @bound whole datum, array<long> into <=3 items: every byte string 0..=5 x refill size 1..=5
+#[kani::proof]
+#[kani::unwind(9)]
+#[kani::stub(alloc::fmt::format, crate::verif::stub_format)]
+fn c11_sv_array_long() {
+	crate::verif::stack_node!(arr = nodes::array_of(&nodes::LONG));
+	let data: [u8; 5] = kani::any();
+	let len: usize = kani::any();
+	kani::assume(len <= 5);
+	let chunk: usize = kani::any();
+	kani::assume(chunk >= 1 && chunk <= 5);
+	sv_scalar::<Seq<i64, 5>>(arr, &data[..len], chunk);
+}
+
+// @harness props=C11 tier=quick timeout=1800
+// @bound whole datum, decimal(bytes) with the i128 hint and fixed(3): every byte string 0..=6 x refill size 1..=6
+#[kani::proof]
+#[kani::unwind(19)]
+#[kani::stub(alloc::fmt::format, crate::verif::stub_format)]
+fn c11_sv_decimal_fixed() {
+	crate::verif::stack_node!(dn = nodes::dec_bytes(0));
+	crate::verif::stack_node!(f3 = nodes::fixed_node(3));
+	let data: [u8; 6] = kani::any();
+	let len: usize = kani::any();
+	kani::assume(len <= 6);
+	let chunk: usize = kani::any();
+	kani::assume(chunk >= 1 && chunk <= 6);
+	sv_scalar::<I128Hint>(dn, &data[..len], chunk);
+	sv_scalar::<OBytes<3>>(f3, &data[..len], chunk);
+}
+
+// =============================================================================================
+// C12: skipping (IgnoredAny) consumes exactly what reading consumes, on every canonical encoding
+
+fn skip_vs_read<'a, T: serde::Deserialize<'a>>(node: &'static SchemaNode<'static>, s: &'a [u8], canonical: bool) {
+	let (a, a_used) = de_slice::<T>(node, s);
+	let (b, b_used) = de_slice::<IgnoredAny>(node, s);
+	if a.is_ok() && canonical {
+		assert!(b.is_ok(), "c12: value that reads fine cannot be skipped");
+		assert!(a_used == b_used, "c12: skipping consumed a different number of bytes than reading");
+	}
+	std::mem::forget(a);
+	std::mem::forget(b);
+}
+
+// @harness props=C12 tier=quick timeout=1200
+// @bound long, int, enum{a,b,cc} (skipped without zig-zag decoding): every byte string 0..=11
+#[kani::proof]
+#[kani::unwind(13)]
+#[kani::stub(alloc::fmt::format, crate::verif::stub_format)]
+fn c12_skip_varints() {
+	crate::verif::enum_node!(en = "e", None; ["a", "b", "cc"]);
+	let data: [u8; 11] = kani::any();
+	let len: usize = kani::any();
+	kani::assume(len <= 11);
+	let s = &data[..len];
+	let mut d = spec::Dec::new(s);
+	let _ = d.int();
+	let canonical32 = !d.noncanon;
+	skip_vs_read::<i64>(&nodes::LONG, s, true);
+	// an int varint longer than 5 bytes is not something a writer emits (and the u32 skip path may refuse it)
+	skip_vs_read::<i32>(&nodes::INT, s, canonical32);
+	skip_vs_read::<OStr<2>>(en, s, true);
+}
+
+// @harness props=C12 tier=quick timeout=1200
+// @bound bytes and string (skipped without UTF-8 validation): every byte string 0..=6
+#[kani::proof]
+#[kani::unwind(9)]
+#[kani::stub(alloc::fmt::format, crate::verif::stub_format)]
+#[kani::stub(std::str::from_utf8, crate::verif::stub_from_utf8)]
+fn c12_skip_bytes_string() {
+	let data: [u8; 6] = kani::any();
+	let len: usize = kani::any();
+	kani::assume(len <= 6);
+	let s = &data[..len];
+	skip_vs_read::<BBytes>(&nodes::BYTES, s, true);
+	skip_vs_read::<BStr>(&nodes::STRING, s, true);
+}
+
+// @harness props=C12 tier=quick timeout=1200
+// @bound fixed(3), duration, double, boolean: every byte string 0..=13
+#[kani::proof]
+#[kani::unwind(15)]
+#[kani::stub(alloc::fmt::format, crate::verif::stub_format)]
+fn c12_skip_fixed_width() {
+	crate::verif::stack_node!(f3 = nodes::fixed_node(3));
+	let data: [u8; 13] = kani::any();
+	let len: usize = kani::any();
+	kani::assume(len <= 13);
+	let s = &data[..len];
+	skip_vs_read::<BBytes>(f3, s, true);
+	skip_vs_read::<DurTuple>(&nodes::DURATION, s, true);
+	skip_vs_read::<f64>(&nodes::DOUBLE, s, true);
+	skip_vs_read::<bool>(&nodes::BOOLEAN, s, true);
+}
+
+// @harness props=C12 tier=quick timeout=1800
+// @bound array<long>: every byte string 0..=5 that the reference decoder accepts with consistent block byte sizes (<= 3 items): skipping (which jumps over negative-count blocks by their byte size and continues with following blocks) consumes what reading consumes
+#[kani::proof]
+#[kani::unwind(8)]
+#[kani::stub(alloc::fmt::format, crate::verif::stub_format)]
+fn c12_skip_array_long() {
+	crate::verif::stack_node!(arr = nodes::array_of(&nodes::LONG));
+	let data: [u8; 5] = kani::any();
+	let len: usize = kani::any();
+	kani::assume(len <= 5);
+	let s = &data[..len];
+	let mut d = spec::Dec::new(s);
+	let mut want = [0i64; 3];
+	let mut n = 0;
+	let mut over = false;
+	let ok = ref_array_long(&mut d, &mut want, &mut n, &mut over);
+	kani::assume(ok.is_some() && !over && !d.noncanon);
+	let (b, b_used) = de_slice::<IgnoredAny>(arr, s);
+	kani::cover!(n == 2 && data[0] == 3);
+	kani::cover!(n == 2 && data[0] == 1 && data[2] == 2);
+	assert!(b.is_ok(), "c12: valid array cannot be skipped");
+	assert!(b_used == d.pos, "c12: skipping an array consumed a different number of bytes than its encoding");
+	std::mem::forget(b);
 }
